@@ -85,10 +85,15 @@ func (d *diff) TableAttrDiff(from, to *schema.Table, opts *schema.DiffOptions) (
 	if change := sqlx.CommentDiff(from.Attrs, to.Attrs); change != nil {
 		changes = append(changes, change)
 	}
-	if change := d.charsetChange(from.Attrs, from.Schema.Attrs, to.Attrs); change != noChange {
+	// A table is not necessarily attached to a schema.
+	var top []schema.Attr
+	if from.Schema != nil {
+		top = from.Schema.Attrs
+	}
+	if change := d.charsetChange(from.Attrs, top, to.Attrs); change != noChange {
 		changes = append(changes, change)
 	}
-	if change := d.collationChange(from.Attrs, from.Schema.Attrs, to.Attrs); change != noChange {
+	if change := d.collationChange(from.Attrs, top, to.Attrs); change != noChange {
 		changes = append(changes, change)
 	}
 	if change := d.engineChange(from.Attrs, to.Attrs); change != noChange {
